@@ -16,6 +16,7 @@ from .xmlchemy_model import choice_prop
 PURE, ADDS_EMPTY, WRITES = 0, 1, 2
 NAMES = {0: "PURE", 1: "ADDS-EMPTY", 2: "WRITES"}
 
+LXML_TREE_FUNCS = {"cleanup_namespaces", "strip_attributes", "strip_elements", "strip_tags", "deannotate", "indent"}
 LXML_MUTATORS = {"append", "insert", "remove", "addprevious", "addnext", "extend", "clear", "set", "replace",
                  "insert_element_before", "remove_all"}
 CONTAINER_TYPES = {"CT_TextBody", "CT_TextParagraph", "CT_TextListStyle"}
@@ -415,6 +416,12 @@ class Effects:
     def _call(self, n, f, fc, fresh, in_oxml, in_model, evs):
         T, M = self.T, self.M
         fn = n.func
+        # lxml module-level functions that rewrite the tree they are given (namespace declarations, attributes, elements)
+        d_ = dotted(fn) or ""
+        if d_.split(".")[-1] in LXML_TREE_FUNCS and (d_.startswith(("etree.", "lxml.", "objectify.")) or "." not in d_) and n.args:
+            if self._root_name(n.args[0]) not in fresh:
+                evs.append(Event(WRITES, "%s() rewrites the tree of %s" % (d_, ast.unparse(n.args[0])), f.file, n.lineno))
+                return
         if isinstance(fn, ast.Attribute):
             root = self._root_name(fn.value)
             recv_fresh = root in fresh
